@@ -46,6 +46,7 @@ Fire(a) ==
     [] a.op = "eq"       -> DgEq(a.g, a.h)
     [] a.op = "dsset"    -> DsSet(a.d, a.k, a.g)
     [] a.op = "dssetbad" -> DsSetBad(a.d, a.k, a.o)
+    [] a.op = "dsupdatebad" -> DsUpdateBad(a.d, a.k, a.o)
     [] a.op = "dsdel"    -> DsDel(a.d, a.k)
     [] a.op = "dspop"    -> DsPop(a.d, a.k)
     [] a.op = "dsget"    -> DsGet(a.d, a.k)
